@@ -107,7 +107,7 @@ def carrier (st : St) : TC V where
   stop := .f st.stop
   truthy := fun v => truthyF v.num
   idx := fun v =>
-    let q := ((v.num - st.start) / st.dt).round
+    let q := roundHE ((v.num - st.start) / st.dt)    -- Python round(): ties to even
     if q < 0.0 || q.isNaN then none else some q.toUInt64.toNat
 
 /-- value of element `n` at index `k`, elements at earlier indices from `hist`; same-index references
